@@ -97,6 +97,12 @@ func ManageModules() error {
 	mgmtLock.Lock()
 	defer mgmtLock.Unlock()
 
+	// Do not start anything anymore if we are shutting down: this call may
+	// have waited for the lock while the shutdown stopped all modules.
+	if shutdownFlag.IsSet() {
+		return nil
+	}
+
 	log.Info("modules: managing changes")
 
 	// build new dependency tree
